@@ -46,7 +46,7 @@ func addProp(d *propDef) {
 func init() {
 	addProp(&propDef{
 		ID: "C05", Check: "flow", Level: "fault_enumeration",
-		Rule: "every vector in {absent, returns, panics with a distinct error value, calls Exit(10+i), dies of a genuine runtime error (shallow depths)}^(2d+3) over the d+1 Befores, the Action (never absent) and the d+1 Afters of the chain app->c1->..->cd, for every depth d in the bound, crossed with the three error policies at d<=2; all vectors are distinct by construction (mixed-radix counter); non-trivial = at least one hook panics or exits; at depth <= 2 every vector with a panicking hook is also run with four more kinds of panic value (user error type exposing ExitCode()/ExitStatus()/Code(), int, string, typed nil pointer): any value that is not a cli.Exit is re-raised unchanged",
+		Rule: "every vector in {absent, returns, panics with a distinct error value, calls Exit(10+i), dies of a genuine runtime error (shallow depths)}^(2d+3) over the d+1 Befores, the Action (never absent) and the d+1 Afters of the chain app->c1->..->cd, for every depth d in the bound, crossed with the three error policies at d<=2; all vectors are distinct by construction (mixed-radix counter); non-trivial = at least one hook panics or exits; at depth <= 2 every vector with a panicking hook is also run with four more kinds of panic value (user error type exposing ExitCode()/ExitStatus()/Code(), int, string, typed nil pointer): any value that is not a cli.Exit is re-raised unchanged; second runs: the hooks are re-assigned before the second Run and must be the ones called",
 		Assumptions: []string{"reference = 30-line model of the documented interceptor diagram (harness/ref/flow.go)"},
 	})
 }
@@ -58,7 +58,7 @@ func init() {
 	}
 	addProp(&propDef{
 		ID: "C01", Check: "lang", Level: "model_checking",
-		Rule:        "structural layer: for every grammar-derived spec up to the structural size bound, the automaton compiled by the library (read back state by state) is compared with the partial-derivative automaton of the spec's AST by BFS over the product of the two subset automata (states/transitions = product states/edges; decides language equality over abstract letters for words of unbounded length; a distinguishing word is concretised and must be reproduced on Cli.Run before it is reported); concrete layer (= traces validated against the implementation): all grammar-derived spec strings up to the size bound (size = leaves + `...` + bracket pairs; deduplicated through a set) x all argument vectors up to the length bound over the token alphabet (every documented spelling, positionals, '-', '--', undeclared and malformed tokens), plus per spec all words over the spec's own letters up to length 5/6 (8/9 when the spec has at most two letters) (model traces); each pair is run on a freshly built application through Cli.Run and judged by the reference; pairs are distinct by construction; non-trivial = the reference accepts, or some atom consumed a token before rejecting; built-in tier: every case a second time with one caller-owned default slice behind every multi-valued declaration (acceptance unchanged); third declaration set `num` (flag -4/--ipv4, flags -i -n/--nan -f, valued -p/--port); structural layer also over the operator towers W3(W1(a) op W2(b)), W any stack of <= 2 (thorough 3) of [s], (s)..., [s]...",
+		Rule:        "structural layer: for every grammar-derived spec up to the structural size bound, the automaton compiled by the library (read back state by state) is compared with the partial-derivative automaton of the spec's AST by BFS over the product of the two subset automata (states/transitions = product states/edges; decides language equality over abstract letters for words of unbounded length; a distinguishing word is concretised and must be reproduced on Cli.Run before it is reported); concrete layer (= traces validated against the implementation): all grammar-derived spec strings up to the size bound (size = leaves + `...` + bracket pairs; deduplicated through a set) x all argument vectors up to the length bound over the token alphabet (every documented spelling, positionals, '-', '--', undeclared and malformed tokens), plus per spec all words over the spec's own letters up to length 5/6 (8/9 when the spec has at most two letters) (model traces); each pair is run on a freshly built application through Cli.Run and judged by the reference; pairs are distinct by construction; non-trivial = the reference accepts, or some atom consumed a token before rejecting; built-in tier: every case a second time with one caller-owned default slice behind every multi-valued declaration (acceptance unchanged); third declaration set `num` (flags -4/--ipv4 and -6, flags -i -n/--nan -f/--nan-ok, valued -p/--port); structural layer also over the operator towers W3(W1(a) op W2(b)), W any stack of <= 2 (thorough 3) of [s], (s)..., [s]...",
 		Assumptions: langAssume,
 		Budget:      [2]int{1200, 7200},
 	})
@@ -73,7 +73,7 @@ func init() {
 func init() {
 	addProp(&propDef{
 		ID: "C03", Check: "term", Level: "exploration", CrashIsViolation: true, HangSecs: 10,
-		Rule: "(i) every string up to the length bound over 22 class representatives (20 bytes and 2 multi-byte characters whose low code-point byte is an ASCII letter) as spec; (ii) every sequence of lexemes up to the bound joined three ways; (iii) every grammar-derived spec up to the size bound x every argv up to the length bound x every subset of {a,o} backed by a set environment variable; each (spec, argv, env) case is executed in a supervised worker process (64 MiB stack limit, hang watchdog) and its outcome class judged; a worker that dies or stops making progress is attributed to the single case it was executing through an mmap'ed state record, and that case is re-run alone three times before it is reported; non-trivial = the spec is rejected at a position > 0, or compiled and the command line was accepted or rejected; space (v): operator towers W3(W1(a) op W2(b)) over seven leaf pairs, W any stack of <= 2 (thorough 3) of [s], (s)..., [s]..., x 9 argvs x 4 environment subsets",
+		Rule: "(i) every string up to the length bound over 22 class representatives (20 bytes and 2 multi-byte characters whose low code-point byte is an ASCII letter) as spec; (ii) every sequence of lexemes up to the bound joined three ways; (iii) every grammar-derived spec up to the size bound x every argv up to the length bound x every subset of {a,o} backed by a set environment variable; each (spec, argv, env) case is executed in a supervised worker process (64 MiB stack limit, hang watchdog) and its outcome class judged; a worker that dies or stops making progress is attributed to the single case it was executing through an mmap'ed state record, and that case is re-run alone three times before it is reported; non-trivial = the spec is rejected at a position > 0, or compiled and the command line was accepted or rejected; space (v): operator towers W3(W1(a) op W2(b)) over seven leaf pairs, W any stack of <= 2 (thorough 3) of [s], (s)..., [s]..., x 9 argvs x 4 environment subsets; space (vi): all strings of <= 4 symbols over blanks and their look-alikes",
 		Assumptions: []string{"liveness oracle: no progress on one case for 10 s (normal cost 3-30 microseconds), confirmed by three isolated re-runs with a 30 s deadline; stack exhaustion is detected by the Go runtime (debug.SetMaxStack 64 MiB), not by time"},
 		Budget:      [2]int{1500, 7200},
 	})
@@ -86,7 +86,7 @@ func init() {
 	}
 	addProp(&propDef{
 		ID: "C09", Check: "meta", Level: "exploration",
-		Rule:        "part 1: every `--`-free grammar-derived spec up to the size bound x every argv up to the length bound without `--` and without malformed token x every insertion point of `--` from the start of the trailing block of non-dash positional items to the very end: the outcome (acceptance and every binding) of the two real runs must be identical; part 2: every spec of the bound containing `--` x every argv of length <=3 over {x,-a,-z,--zz,--,-,-o,-o=}: acceptance and bindings against the reference (tokens after the marker verbatim); evaluations = compared pairs; non-trivial = pairs whose base outcome is an acceptance",
+		Rule:        "part 1: every `--`-free grammar-derived spec up to the size bound x every argv up to the length bound without `--` and without malformed token x every insertion point of `--` from the start of the trailing block of non-dash positional items to the very end: the outcome (acceptance and every binding) of the two real runs must be identical; part 2: every spec of the bound containing `--` x every argv of length <=3 over {x,-a,-z,--zz,--,-,-o,-o=}: acceptance and bindings against the reference (tokens after the marker verbatim); evaluations = compared pairs; non-trivial = pairs whose base outcome is an acceptance; part 3: replacing every token after the first `--` by a neutral placeholder changes nothing but the bound strings",
 		Assumptions: metaAssume,
 	})
 	addProp(&propDef{
@@ -104,7 +104,7 @@ func init() {
 func init() {
 	addProp(&propDef{
 		ID: "C12", Check: "env", Level: "exploration",
-		Rule: "every grammar-derived spec up to the size bound x every argv up to the length bound x every non-empty subset E of {a, o} backed by a set, valid environment variable; two real runs (variables unset / set): (1) accepted unset => accepted set; (2) for specs without `--`: written options hold exactly their command-line values, unwritten env-backed options hold the environment value; (3) for argvs naming no option of E: reference(spec with E's single atoms optional) accepts => accepted, reference(... and groups containing an E option optional) rejects => rejected (in between: unclaimed U3); non-trivial = accepted in at least one of the two runs",
+		Rule: "every grammar-derived spec up to the size bound x every argv up to the length bound x every non-empty subset E of {a, o} backed by a set, valid environment variable; two real runs (variables unset / set): (1) accepted unset => accepted set; (2) for specs without `--`: written options hold exactly their command-line values, unwritten env-backed options hold the environment value; (3) for argvs naming no option of E: reference(spec with E's single atoms optional) accepts => accepted, reference(... and groups containing an E option optional) rejects => rejected (in between: unclaimed U3); non-trivial = accepted in at least one of the two runs; env set {a: 0} (a false spelling satisfies like any valid value); acceptance with built-in value types equals acceptance with the custom types",
 		Assumptions: []string{"reference semantics of DESIGN.md section 4 with env-backed atoms made optional", "environment variables VQ_A / VQ_O are set only around the declaration of the application under test and unset afterwards"},
 	})
 }
@@ -112,7 +112,7 @@ func init() {
 func init() {
 	addProp(&propDef{
 		ID: "C08", Check: "syntax", Level: "exploration",
-		Rule: "(i) every non-empty string up to the length bound over 22 class representatives (20 bytes and 2 multi-byte characters whose low code-point byte is an ASCII letter), (ii) every sequence of lexemes up to the bound joined by nothing / a space / a tab, each against two declaration sets so that every name occurs declared and undeclared; reference = leftmost-longest tokenizer of the lexical conventions (DESIGN.md 4.5) + generic Earley recogniser over the EBNF given as data + the two context conditions; judged: compiled <=> well-formed, error position within the first offending lexeme and <= len(spec), no hook runs on rejection, tokens of an accepted spec partition its non-blank bytes; non-trivial = the string lexes to >= 2 tokens or is rejected at a position > 0; every rejected spec is also run as `app -v` (version flag declared) and `app --help`: the same panic with the same position, nothing printed instead",
+		Rule: "(i) every non-empty string up to the length bound over 22 class representatives (20 bytes and 2 multi-byte characters whose low code-point byte is an ASCII letter), (ii) every sequence of lexemes up to the bound joined by nothing / a space / a tab, each against two declaration sets so that every name occurs declared and undeclared; reference = leftmost-longest tokenizer of the lexical conventions (DESIGN.md 4.5) + generic Earley recogniser over the EBNF given as data + the two context conditions; judged: compiled <=> well-formed, error position within the first offending lexeme and <= len(spec), no hook runs on rejection, tokens of an accepted spec partition its non-blank bytes; non-trivial = the string lexes to >= 2 tokens or is rejected at a position > 0; every rejected spec is also run as `app -v` (version flag declared) and `app --help`: the same panic with the same position, nothing printed instead; every accepted spec is run a second time on the same instance; spaces (vi) blanks and look-alikes, (vii) declaration set {d/dry-run, k/keep_all; SRC_DIR}",
 		Assumptions: []string{"lexical conventions not fixed by the documentation are taken from the code and listed in DESIGN.md 4.5 (e.g. `--` is the end-of-options token only before a space or the end of the string)"},
 	})
 }
@@ -128,7 +128,7 @@ func init() {
 func init() {
 	addProp(&propDef{
 		ID: "C07", Check: "policy", Level: "fault_enumeration",
-		Rule: "command trees of the bound with Before/After/Action on every level x spec assignments over {`[-f]`, `[-f] X`, `[-i...] [-o]` (repeatable int option, string option), `N` (int argument)} x every target x per-level argvs covering every rejection kind (spec mismatch at each level, undeclared option, missing value, unconvertible value for an int option / argument) and accepted controls x every assignment of {ContinueOnError, ExitOnError, PanicOnError} to the root and of {inherited, ContinueOnError, ExitOnError, PanicOnError} to every deeper level of the path, set inside each command's initializer; judged against the reference router: rejected => no hook and no Action ran, the error text and a `Usage: <full path of the rejecting command>` line on the error stream, then exactly the policy of that command; accepted => hooks in nesting order, nil, no exit, no panic; non-trivial = rejected invocations; with Version(\"v version\") declared: rejected invocations ending in a version flag are still rejections under every root policy",
+		Rule: "command trees of the bound with Before/After/Action on every level x spec assignments over {`[-f]`, `[-f] X`, `[-i...] [-o]` (repeatable int option, string option), `N` (int argument)} x every target x per-level argvs covering every rejection kind (spec mismatch at each level, undeclared option, missing value, unconvertible value for an int option / argument) and accepted controls x every assignment of {ContinueOnError, ExitOnError, PanicOnError} to the root and of {inherited, ContinueOnError, ExitOnError, PanicOnError} to every deeper level of the path, set inside each command's initializer; judged against the reference router: rejected => no hook and no Action ran, the error text and a `Usage: <full path of the rejecting command>` line on the error stream, then exactly the policy of that command; accepted => hooks in nesting order, nil, no exit, no panic; non-trivial = rejected invocations; with Version(\"v version\") declared: rejected invocations ending in a version flag are still rejections under every root policy; deep tree (5 levels, siblings on every level): a rejection at every command x 3 root policies, usage of exactly that command",
 		Assumptions: []string{"per-level validation uses the reference semantics of DESIGN.md section 4 plus strconv for int containers"},
 	})
 }
@@ -136,7 +136,7 @@ func init() {
 func init() {
 	addProp(&propDef{
 		ID: "C14", Check: "help", Level: "exploration",
-		Rule: "command trees of the bound (hooks on every level, long descriptions set) x spec assignments over {`[-f]`, `[-f] X`, `[-f] [-- X...]`} x every target x every alias combination x per-level argvs (valid, invalid, with and without `--`) x a -h/--help token inserted at every position x the three policies; plus a declared version flag as first argument; judged: the long help of the command named by the sub-command names preceding the token (`Usage: <full path>` line of exactly that command, long description), no `Error:` line, no hook, exit 0 under ExitOnError else nil; a help token after `--` in the same command's own arguments must be bound as data; cases where an ancestor's own arguments contain `--` are generated, counted, not judged; non-trivial = judged help/version requests",
+		Rule: "command trees of the bound (hooks on every level, long descriptions set) x spec assignments over {`[-f]`, `[-f] X`, `[-f] [-- X...]`} x every target x every alias combination x per-level argvs (valid, invalid, with and without `--`) x a -h/--help token inserted at every position x the three policies; plus a declared version flag as first argument; judged: the long help of the command named by the sub-command names preceding the token (`Usage: <full path>` line of exactly that command, long description), no `Error:` line, no hook, exit 0 under ExitOnError else nil; a help token after `--` in the same command's own arguments must be bound as data; cases where an ancestor's own arguments contain `--` are generated, counted, not judged; non-trivial = judged help/version requests; help of a command declared after the first Run of the instance",
 		Assumptions: []string{"the addressed command is computed by a 5-line walk over the sub-command names preceding the token"},
 	})
 }
@@ -145,7 +145,7 @@ func init() {
 	vrule := "product of: the seven built-in types x {option with spec `[-x...]`, argument with spec `[X...]`} x {value-returning, *Ptr} declaration forms x default {zero, non-zero} x environment lists of 0, 1 or 2 variables each {unset, empty, valid, invalid, (multi) list with blanks, list with an invalid element} x command lines giving the value 0, 1 or 2 times in every spelling; plus, on the same application instance, a second Run whose command line gives one value (it must replace whatever the first parse left); every case with the item on the application and on a lazily initialised sub-command; all cases distinct by construction; non-trivial = at least two of {command line, environment, default} offer a value"
 	addProp(&propDef{
 		ID: "C06", Check: "values", Level: "exploration",
-		Rule:        vrule + "; judged: the variable read inside the Action equals the 10-line reference (command-line values if any - multi: exactly those, single: the last; else the first non-empty valid variable; else the default); one variable behind two declarations (*Ptr forms, Var): 8 types x {option+argument, two options, two arguments} x every subset given x {root, sub-command}: the variable holds the value of a declaration that was given one",
+		Rule:        vrule + "; judged: the variable read inside the Action equals the 10-line reference (command-line values if any - multi: exactly those, single: the last; else the first non-empty valid variable; else the default); one variable behind two declarations (*Ptr forms, Var): 8 types x {option+argument, two options, two arguments} x every subset given x {root, sub-command}: the variable holds the value of a declaration that was given one; *Ptr forms declare over pre-filled variables; every case also with HideValue; env state padded-single (blanks make a number invalid, belong to a string); command lines spelling the value the variable already holds",
 		Assumptions: []string{"validity of the few environment tokens used here is obvious (42 / zz, 2.25 / zz, true / maybe); agreement with strconv on arbitrary tokens is C13"},
 	})
 	addProp(&propDef{
@@ -184,7 +184,7 @@ func init() {
 func init() {
 	addProp(&propDef{
 		ID: "C19", Check: "custom", Level: "exploration",
-		Rule: "16 logging custom flag.Value types (12 struct types: every combination of IsBoolFlag absent/false/true, Clear absent/present, IsDefault absent/present; 4 types without optional methods whose underlying kind is bool, []string, string, int - capabilities come from the optional interfaces only) as option and as argument x 5 specs x 4 environment settings (unset, single, list, failing) x every argv up to length 3 over the option's spellings, values, a token on which Set fails, and `--`; judged on the per-instance call log: at declaration only the environment content is delivered, through Set (the exact sequence is not fixed by the property and not judged); during Run: Clear exactly once and first iff the type has Clear and a command-line value is bound, then Set with exactly the tokens the reference matcher binds, in order (Set(\"true\") for a bare flag of a type whose IsBoolFlag() is true; other types take a value); a Set error gives a usage error and the Action does not run; non-trivial = command lines with an accepting derivation",
+		Rule: "18 logging custom flag.Value types (2 decorator values of one Go type whose IsBoolFlag() answers differently, each used after the other; 12 struct types: every combination of IsBoolFlag absent/false/true, Clear absent/present, IsDefault absent/present; 4 types without optional methods whose underlying kind is bool, []string, string, int - capabilities come from the optional interfaces only) as option and as argument x 5 specs x 4 environment settings (unset, single, list, failing) x every argv up to length 3 over the option's spellings, values, a token on which Set fails, and `--`; judged on the per-instance call log: at declaration only the environment content is delivered, through Set (the exact sequence is not fixed by the property and not judged); during Run: Clear exactly once and first iff the type has Clear and a command-line value is bound, then Set with exactly the tokens the reference matcher binds, in order (Set(\"true\") for a bare flag of a type whose IsBoolFlag() is true; other types take a value); a Set error gives a usage error and the Action does not run; non-trivial = command lines with an accepting derivation",
 		Assumptions: []string{"bound tokens come from the reference semantics of DESIGN.md section 4 (any accepting derivation)", "when two containers are filled and one Set fails, the other container may or may not have been filled (map iteration order): both are accepted"},
 	})
 }
@@ -213,7 +213,7 @@ func init() {
 			{Name: "probe-conv", Build: "plain", Check: "conv", Props: "C13", OrderProbe: true},
 			{Name: "probe-decl", Build: "plain", Check: "decl", Props: "C18", OrderProbe: true},
 		},
-		Rule: "(a) histories: every template rebuilt and rerun 120 times (identical outcomes), and every ordered sequence of <= 3 of 18 application templates (chosen to collide: same spec text with different declarations, same option names, the same environment variable read with different values, a rejection, a help request under ExitOnError, hooks with Exit, nested repetitions, implicit spec, two rejections caused by unconvertible values with other containers already collected, a rejection by the spec of a sub-command; error values returned by earlier runs of a history must keep reading the same) is built-and-run in one fresh process and every outcome compared with the template's outcome alone in a fresh process; (b) interleavings: the library sources are instrumented (overlay) with a scheduling point at every function entry, every loop head and before/after every statement mentioning a package-level variable; 2 (thorough: 3) templates run as cooperative threads; all schedules up to the preemption bound are enumerated depth-first (dense pass: every point; focused pass: tagged points only, higher bound), every execution on fresh objects; oracle per execution: each thread ends exactly as it does alone under the same instrumentation (result, bound values, exit codes and the text that thread itself wrote to the output stream), and no package-level variable is written by one thread and touched by another (conflict monitor); states = scheduling points visited, transitions = executions (schedules) run; traces validated = schedules executed on the real code (all of them); (c) the same bodies free-running in 16 goroutines under -race; (d) order probes: the enumerations of C06/C15, C19, C17, C13 and C18 (thorough: also C14) (millions of different applications built and run one after another in 16 long-lived processes) are run once more, and a case that fails there but passes alone in a fresh process is reported as an order dependence; non-trivial = executions with at least one preemption, histories of length >= 2",
+		Rule: "(a) histories: every template rebuilt and rerun 120 times (identical outcomes), and every ordered sequence of <= 3 of 21 application templates (chosen to collide: same spec text with different declarations, same option names, the same environment variable read with different values, a rejection, a help request under ExitOnError, hooks with Exit, nested repetitions, implicit spec, two rejections caused by unconvertible values with other containers already collected, a rejection by the spec of a sub-command, two custom values of one Go type answering IsBoolFlag() differently, an accepted run under PanicOnError; error values returned by earlier runs of a history must keep reading the same) is built-and-run in one fresh process and every outcome compared with the template's outcome alone in a fresh process; (b) interleavings: the library sources are instrumented (overlay) with a scheduling point at every function entry, every loop head and before/after every statement mentioning a package-level variable; 2 (thorough: 3) templates run as cooperative threads; all schedules up to the preemption bound are enumerated depth-first (dense pass: every point; focused pass: tagged points only, higher bound), every execution on fresh objects; oracle per execution: each thread ends exactly as it does alone under the same instrumentation (result, bound values, exit codes and the text that thread itself wrote to the output stream), and no package-level variable is written by one thread and touched by another (conflict monitor); states = scheduling points visited, transitions = executions (schedules) run; traces validated = schedules executed on the real code (all of them); (c) the same bodies free-running in 16 goroutines under -race; (d) order probes: the enumerations of C06/C15, C19, C17, C13 and C18 (thorough: also C14) (millions of different applications built and run one after another in 16 long-lived processes) are run once more, and a case that fails there but passes alone in a fresh process is reported as an order dependence; non-trivial = executions with at least one preemption, histories of length >= 2",
 		Assumptions: []string{"interleavings are explored at the granularity of the inserted scheduling points; Go memory-model effects below that granularity are left to the free-running -race pass, which is not exhaustive", "a report of the race detector is taken as proof (no confirmation replay)", "concurrent applications share the package-level output stream by design: outputs are compared in histories only"},
 	})
 }
